@@ -1173,6 +1173,8 @@ def _iv(inp):
 def _paper_wallet(inp):
     from btc_hd_wallet import PaperWallet
     test = inp["net"] == "test"
+    if inp.get("import") is not None:
+        return PaperWallet.from_extended_key(untext(inp["import"]))
     if inp.get("seed") is not None:
         return PaperWallet.from_bip39_seed_bytes(bytes(inp["seed"]), testnet=test)
     return PaperWallet.from_mnemonic(untext(inp["mnemonic"]), untext(inp["password"]), testnet=test)
@@ -1180,6 +1182,11 @@ def _paper_wallet(inp):
 
 def _ref_master(tab, inp):
     from . import refwallet as W
+    if inp.get("import") is not None:
+        body = R.b58check_body(untext(inp["import"]))
+        tab.hash256(body)
+        k = body[46:78]
+        return W.RNode(k, tab.ptc(k), body[13:45], body[4], int.from_bytes(body[9:13], "big"), body[5:9], inp["net"])
     if inp.get("seed") is not None:
         seed = bytes(inp["seed"])
     else:
